@@ -10,6 +10,7 @@ package PKGNAME
 // cache is an in-memory double of cache.Cache.
 
 import (
+	"errors"
 	"bytes"
 	"encoding/json"
 	"fmt"
@@ -107,6 +108,10 @@ func verifInner(r *verifRef) *verifDouble {
 		if err != nil {
 			return nil, err
 		}
+		if verifRejectPut {
+			// the whole body was read, then the put is refused (checksum mismatch, failed commit)
+			return nil, errors.New("verif: the inner storage rejects this put")
+		}
 		write(body)
 		return &storage.PutObjectResult{}, nil
 	}
@@ -157,7 +162,10 @@ func verifInner(r *verifRef) *verifDouble {
 	return d
 }
 
-var verifOps = []string{"PutObject", "AppendObject", "CopyObject", "CompleteMultipartUpload", "DeleteObject", "DeleteObjects",
+// verifRejectPut: the inner storage reads the body of the next PutObject and then refuses it
+var verifRejectPut bool
+
+var verifOps = []string{"PutObjectRejected", "PutObject", "AppendObject", "CopyObject", "CompleteMultipartUpload", "DeleteObject", "DeleteObjects",
 	"PutObjectTagging", "DeleteObjectTagging", "TransitionObjectStorageClass"}
 
 func verifMethodIndex(name string) int {
@@ -226,7 +234,13 @@ func VerifC20Sequential() {
 	steps := verifParam("steps", 2)
 	for s := 0; s < steps; s++ {
 		op := verifOps[verifPick("op", 0, len(verifOps)-1)]
-		if op == "TransitionObjectStorageClass" {
+		if op == "PutObjectRejected" {
+			verifRejectPut = true
+			_, err := mw.PutObject(verifBg, args.bucket, args.key, nil, bytes.NewReader([]byte("rejected")), nil, nil)
+			verifRejectPut = false
+			verifAssert(err != nil, "a put the inner storage refused was reported as success")
+			verifCover("rejected-put")
+		} else if op == "TransitionObjectStorageClass" {
 			mw.TransitionObjectStorageClass(verifBg, args.bucket, args.key, []string{"GLACIER", "STANDARD_IA"}[s%2], nil)
 		} else if op == "CopyObject" {
 			// the copy's destination is the observed key; the source is in the
